@@ -1370,9 +1370,20 @@ def _euler_getter(ctx, prog):
     selfp, axes = tm.param("self"), tm.param("axes")
     r = Interp(prog, inline_properties=False).run(f, {"axes": const("sxyz")})
     r2 = Interp(prog, inline_properties=False).run(f)
-    ok, odd = True, None
+    ok, odd, evid = True, None, False
+
+    def alts(t):
+        # np.array(a if c else b): the conversion of either list
+        for a_ in tm.strip_ite(t):
+            if is_call_to(a_, "numpy.array", "numpy.asarray") and \
+                    len(a_.args[1]) == 1 and not a_.args[2] and \
+                    Interp.unname(a_.args[1][0]).op == "ite":
+                for b_ in alts(Interp.unname(a_.args[1][0])):
+                    yield T("call", a_.args[0], (b_,), a_.args[2])
+            else:
+                yield a_
     for ret in (r.ret, r2.ret):
-        for alt in tm.strip_ite(ret):
+        for alt in alts(ret):
             pe_ = per_element(alt)
             good = pe_ is not None and not pe_[3] and is_call_to(
                 pe_[0], "evo.core.transformations.euler_from_matrix",
@@ -1385,12 +1396,22 @@ def _euler_getter(ctx, prog):
                     tm.attr(selfp, "orientations_quat_wxyz"))
             if not good:
                 ok, odd = False, alt
+                # a per-pose use of the vendored conversion with another
+                # source / sequence / a filter is evidence; anything else is
+                # a form this rule does not model
+                evid = evid or (pe_ is not None and is_call_to(
+                    pe_[0], "evo.core.transformations.euler_from_matrix",
+                    "evo.core.transformations.euler_from_quaternion"))
     if not ok and any(is_call_to(x, "numpy.arctan2", "numpy.arcsin",
                                  "numpy.arccos", "math.atan2")
                       for x in odd.walk()):
         ctx.undecidable("C20.10", f, "get_orientations_euler computes angles "
                         "with its own trigonometry next to the vendored "
                         "conversion (not covered by assumption A4)")
+        return
+    if not ok and not evid:
+        ctx.undecidable("C20.10", f, "get_orientations_euler: unrecognised "
+                        f"form of the returned angles {fmt(odd)[:100]}")
         return
     ctx.ob("C20.10", f, ok,
            "get_orientations_euler: the vendored Euler conversion of every "
